@@ -10,7 +10,7 @@ DEMO=$(basename "$D"/demo_*.rs .rs)
 cp "$D/$DEMO.rs" air/tests/
 run_demo() { cargo test -p aquavm-air --features air-test-utils/test_with_native_code,check_signatures,gen_signatures --offline --test "$DEMO" > "$WT/target/demo.log" 2>&1; echo $?; }
 r_without=$(run_demo); w1=$(grep -E "^test result" "$WT/target/demo.log" | head -1)
-git apply "$D/patch.diff" || { echo "$SID: patch does not apply"; exit 2; }
+patch -p1 -s < "$D/patch.diff" || { echo "$SID: patch does not apply"; exit 2; }
 r_with=$(run_demo); w2=$(grep -E "^test result" "$WT/target/demo.log" | head -1)
 rm -f "air/tests/$DEMO.rs"
 b=$(bash /verif/bin/baseline "$WT" | head -1)
